@@ -7,8 +7,8 @@ ST=${SEEDTEST_WT:-/root/wk/seedtest}
 R=$(mktemp -d /tmp/seedrepo.XXXXXX)
 rmdir "$R"
 git -C /repo worktree add -q --detach "$R" HEAD || exit 2
-if ! git -C "$R" apply "$PATCH"; then echo "PATCH DOES NOT APPLY"; git -C /repo worktree remove --force "$R"; exit 2; fi
-if [ ! -d "$ST" ]; then git -C /verif worktree add -q --detach "$ST" main; else git -C "$ST" reset -q --hard; git -C "$ST" checkout -q --detach main; fi
+if ! git -C "$R" apply "$PATCH" 2>/dev/null && ! git -C "$R" apply --3way "$PATCH" 2>/dev/null; then echo "PATCH DOES NOT APPLY"; git -C /repo worktree remove --force "$R"; exit 2; fi
+if [ ! -d "$ST" ]; then git -C /verif worktree add -q --detach "$ST" main; else git -C "$ST" reset -q --hard; git -C "$ST" clean -fdq -e "*.vo" -e "*.glob" -e "*.vos" -e "*.vok" -e ".*.aux" -e "ocaml/" -e "coq/Makefile*" -e "coq/.Makefile.d" -e "harness/vh"; git -C "$ST" checkout -q --detach main; fi
 cd "$ST"
 export VERIF_REPO="$R"
 rc=0
